@@ -562,6 +562,17 @@ func ruleRec(c *Ctx) {
 		for _, call := range callsIn(fn) {
 			if _, is := isCallTo(call, la); is {
 				for _, fFlags := range p.flagFields("server.Subscription.flags") {
+					// ... or through a method of the flag member's own type, handed the member's address
+					// (`s.flags.clear(flagReaccess)`)
+					for _, c2 := range callsIn(fn) {
+						if sf := c2.Common().StaticCallee(); sf != nil && p.isRepoFn(sf) && dominates(c2, call) {
+							for _, a := range c2.Common().Args {
+								if fa, isFA := a.(*ssa.FieldAddr); isFA && fieldOfAddr(fa) == fFlags {
+									ok = true
+								}
+							}
+						}
+					}
 					for _, st := range p.stores[fFlags] {
 						if st.Parent() == fn && dominates(st, call) {
 							ok = true
